@@ -173,6 +173,20 @@ claim("C17",
       "table indexes with sanitiser recognition",
       "DESIGN.md section 3, C17")
 
+claim("C05",
+      "Partial, codec symmetry: for the FOAM byte code (per format letter: encoder, two decoders, skipper), the float and "
+      "integer buffer primitives, the library header, and the sefo/syme/tqual/list families of sefo.c, the writer and every "
+      "reader/skipper perform mirror-image buffer operations (same widths, same length selectors, same case partition, "
+      "inverse offsets, same flag-bit masks); wide SInt constants are reduced and range-asserted before being written; "
+      "letter coverage of the structural walkers. A mismatch for one rarely used letter or tag corrupts everything stored "
+      "after it, which no test that only loads the standard libraries sees. Equality of whole round-tripped programs, "
+      "symbol renumbering and split/whole behaviour are not decided; the data-dependent tform codec is reported uncompared "
+      "except for its flag bits.",
+      "Trusted: clang 14 AST; primitive widths derived from buffer.c; the abstraction of case bodies to buffer events "
+      "(rules/c05_codec.py); '!' marks forms that are never stored.",
+      "sibling comparison of writer/reader/skipper switch cases abstracted to buffer-event sequences over the clang AST",
+      "DESIGN.md section 3, C05")
+
 PENDING_REASON = "check designed in DESIGN.md but not yet built in this tree; not claimed until it runs"
 
 
